@@ -6,26 +6,26 @@ import os, re, json
 VERIF = os.path.dirname(os.path.dirname(os.path.abspath(__file__)))
 
 NOTES = {
-    "C01": "+ sweeps repeated right after a sweep over `==`-equal values of other types; a falsy seed; the caller's same objects swept twice; grids of 81-1024 settings",
-    "C02": "dict cases with per-case key order rotated; the same request through a long-lived Runner that ran with another argument order before; integer-array results",
-    "C03": "13 descriptions incl. falsy constants / attributes and a constant naming a Dataset result's dimension; the caller's same case dicts swept twice",
-    "C04": "real loky pool with a slow first setting; fresh-process runs; crops of 101-128 batches; BFS key includes whether the live Crop took part",
-    "C05": "+ a second long-lived Harvester; + a lazily loading (chunks) Harvester; state cap instead of fix-point",
-    "C06": "+ constants given at sow time; + another session harvesting into the file between sow and reap",
-    "C07": "+ farmer constants changed and the same Crop sown again; crops of 101-257 batches",
-    "C08": "fix-point reached for <= 8 batches; 12 / 101 batches with a sparser alphabet to bounded depth",
-    "C09": "forms / kinds rotate over (request, subset) in quick; + 11-101 batches; integer arrays",
-    "C10": "recovery = re-run the sow script (default autoload); short-last-batch scenario; real-SIGKILL conformance",
-    "C11": "see 2.8; an open handle follows its inode across renames",
-    "C12": "faults at open/read/write/close/rename only; failure and retry also through one long-lived session; short-result failure",
-    "C13": "lattices chunked; bounded deviation beyond the cap; parse_into_cases sequences (same arguments twice, fewer parameters next)",
-    "C14": "as designed",
-    "C15": "+ a second long-lived Sampler; long-lived Crop objects sown repeatedly; state key includes the live objects",
-    "C16": "real-interpreter subset; + B = 12",
-    "C17": "see alphabet limits in the section; every stored dimension order",
-    "C18": "every stored dimension order; reordered sub-selections as explicit orders",
-    "C19": "depth 6 / 8; successor states are copies of the real objects; every intermediate matrix state read",
-    "C20": "+ exponents where the printed width changes and the ends of the float range",
+    "C01": "+ falsy seed, empty arguments, mixed-type / generator / array values, **kwargs constants, split array / list results, the caller's objects swept twice, grids of 81-1024 settings; controlled executors tolerate unknown submissions",
+    "C02": "+ long-lived Runner with another argument order before, integer arrays, mixed numeric / tuple case values, one-shot iterators",
+    "C03": "+ falsy constants, reversed signature, the caller's case dicts swept twice, mixed / complex case values, internal labels that differ per result, attrs on Dataset / dict results",
+    "C04": "+ crops of 101-128 batches, an earlier un-reaped sweep through the same Crop, cases x two non-alphabetical sub-grid arguments; BFS key includes the live Crop",
+    "C05": "+ second live Harvester, lazy (chunks) Harvester, ellipsis dict re-used, empty dataset, fractional coordinate, dict cases with varying key order, positional drop_sel; state cap instead of fix-point",
+    "C06": "+ sow-time constants (falsy too), other session harvesting in between, earlier rounds through the same Crop / crop name (reaped, un-reaped, other function version), constructor shuffle, 12-batch crops with wait",
+    "C07": "+ sow_cases with sub-grid, falsy constants, request at the sow call, farmer constants changed / one-off constant, delete_all + sow again, reloaded Crop sowing, one batch less, 101-257 batches; reference through a twin farmer",
+    "C08": "fix-point for <= 8 batches; 12 / 101 batches bounded; + damaged results + check_bad, other function sown by another session, StopIteration failures, iterator ids, count above N",
+    "C09": "+ 11-101 batches, integer / non-square / 3-d / dict results, constructor shuffle, same Crop sown again with another last batch",
+    "C10": "recovery = re-run the sow script, decided by what the crop reports, nothing retried; short-last-batch and shuffled scenarios; real-SIGKILL conformance",
+    "C11": "see 2.8; open handles follow their inode; + the awaited result appearing after P looks, every P up to 40 / 150",
+    "C12": "+ long-lived session for failure + retry, short / long results (falsy surplus, last value False), sampler without table, in-memory harvester, three outputs with one name too few; crop sown from the farmer holding the earlier data",
+    "C13": "lattices chunked, bounded deviation beyond the cap; + unlabelled internal dimension, ignore as plain string, dims order != axis order, parse_into_cases sequences, loop with reversed signature",
+    "C14": "+ second save under the same name, engine per call, narrow coordinate widened by a merge; secondary dimensions rotate by hash",
+    "C15": "+ second live Sampler, long-lived Crops sown repeatedly (also before reaping), per-sow constants, list-choice Sampler with overrides, string-valued argument; state key includes the live objects",
+    "C16": "real-interpreter subset; + B = 12, crop name starting with prefix characters, crop addressed by a relative path",
+    "C17": "+ every stored dimension order, missing error values, z = 0, non-monotonic z, x given by a 2-d variable, z-less 2-d pairs; option sets by hash; colour-map oracle independent of the library",
+    "C18": "+ stored dimension orders, reordered sub-selections, two aggregated dimensions, fused dimensions in both orders with labels, an all-zero slice; thinning by hash",
+    "C19": "depth 6 / 8 on copies of the real objects; + samples of 33-500 values in chunks, covariance matrix in chunks (square chunks), estimates at other scales",
+    "C20": "+ exponents +-99..101, +-200, +-300, errors a hair off the rounding points",
 }
 
 
